@@ -55,7 +55,7 @@ def evaluate(name, run_tests=True, thorough=False, as_prop=None):
         res["demo_patched"] = rc1
         if run_tests:
             t0 = time.time()
-            rct, ot = sh([PY, "-m", "pytest", "-q", "-p", "no:cacheprovider", "--timeout=900", "tests"], cwd=wt, env=env, timeout=1800)
+            rct, ot = sh([PY, "-m", "pytest", "-q", "-p", "no:cacheprovider", "--timeout=300", "tests"], cwd=wt, env=env, timeout=1500)
             m = re.search(r"(\d+) passed", ot)
             res["tests_rc"] = rct
             res["tests_passed"] = int(m.group(1)) if m else None
@@ -101,9 +101,18 @@ def main(argv):
             as_prop = a.split("=", 1)[1]
     names = [a for a in argv if not a.startswith("--") and not a.isdigit()]
     if not names:
-        names = sorted(os.listdir(SEEDED))
+        names = sorted(n for n in os.listdir(SEEDED) if os.path.exists(os.path.join(SEEDED, n, "meta.json")))
+    def safe(n):
+        try:
+            return evaluate(n, run_tests, thorough, as_prop)
+        except Exception as e:  # noqa: BLE001 - one bad item must not lose the others
+            return {"name": n, "property": as_prop or "?", "error": f"evaluation failed: {type(e).__name__}: {e}"[:400]}
+
+    from concurrent.futures import as_completed
     with ThreadPoolExecutor(max_workers=jobs) as ex:
-        for res in ex.map(lambda n: evaluate(n, run_tests, thorough, as_prop), names):
+        futs = [ex.submit(safe, n) for n in names]
+        for fu in as_completed(futs):
+            res = fu.result()
             p = os.path.join(SEEDED, res["name"], "meta.json")
             meta = json.load(open(p))
             if as_prop:
